@@ -10,7 +10,6 @@ tree) -> Coq-evaluated correspondence shards -> classification (known findings, 
 input search) -> evidence file.
 """
 import argparse
-import fcntl
 import glob
 import hashlib
 import json
@@ -98,17 +97,11 @@ def hygiene():
 def coq_build(pid):
     """build props/Properties_<pid>.vo and check/Check_<pid>.vo (and their deps).
     returns (ok_props, ok_check, log)"""
-    os.makedirs(BUILD, exist_ok=True)
-    lock = open(os.path.join(BUILD, ".coq.lock"), "w")
-    fcntl.flock(lock, fcntl.LOCK_EX)
-    try:
-        tp = f"props/Properties_{pid}.vo"
-        tc = f"check/Check_{pid}.vo"
-        rc1, out1 = sh([os.path.join(COQ, "mk.sh"), tc], 1700)
-        rc2, out2 = sh([os.path.join(COQ, "mk.sh"), tp], 1700)
-        return rc2 == 0, rc1 == 0, out1 + out2
-    finally:
-        fcntl.flock(lock, fcntl.LOCK_UN)
+    tp = f"props/Properties_{pid}.vo"
+    tc = f"check/Check_{pid}.vo"
+    rc1, out1 = sh([os.path.join(COQ, "mk.sh"), tc], 1700)
+    rc2, out2 = sh([os.path.join(COQ, "mk.sh"), tp], 1700)
+    return rc2 == 0, rc1 == 0, out1 + out2
 
 
 def print_assumptions(pid):
